@@ -27,9 +27,13 @@ def run(sc):
         ccfg, reqtag = [], []
         cas[nd["name"]] = []
         for k, c in enumerate(nd.get("cas", []), start=1):
-            kw = dict(c.get("name", {}))
-            kw.setdefault("identity_number", c.get("ident", k))
-            name = j1939.Name(arbitrary_address_capable=c.get("aac", 0), **kw)
+            if "value_bytes" in c:         # the NAME given as its 8 bytes (LSB first); bit 63 = arbitrary address capable
+                name = j1939.Name(bytes=list(c["value_bytes"]))
+                c = dict(c, aac=(c["value_bytes"][7] >> 7) & 1)
+            else:
+                kw = dict(c.get("name", {}))
+                kw.setdefault("identity_number", c.get("ident", k))
+                name = j1939.Name(arbitrary_address_capable=c.get("aac", 0), **kw)
             ca = j1939.ControllerApplication(name, c.get("pref"), bypass_address_claim=c.get("bypass", False))
             n.ecu.add_ca(controller_application=ca)
             n.listen_ca(ca, tag="ca%d" % k)
